@@ -267,3 +267,17 @@ package store
 //@   loop 4 invariant PGeom(s) && PPagesOK(s) && PUnused(s) && PRange(s) && PAlloc(s) && PNonneg(s)
 //@   loop 4 invariant exists p int :: PHas(s, p) && arr(page) == arr(s.pages[p - s.minPageIndex]) && len(page) == 32 && off(page) == 0
 //@   loop 4 decreases numBins - i
+
+// Encode compacts first (content-preserving), then only appends to the caller's buffer: the content of the store is
+// the same before and after.
+//@ func BufferedPaginatedStore.Encode
+//@   serves C06 C14 C07
+//@   requires PInv(s) && b != nil
+//@   ensures append-only: enc.PrefixKept(b)
+//@   ensures pure: PInv(s) && footprintStable(s) && (forall k int :: PView(s, k) == old(PView(s, k)))
+//@   modifies *b, arr(*b), footprint(s)
+//@   ghost v1 array_real := lambda k int :: PView(s, k)
+//@   after BufferedPaginatedStore.compact#1 ghost v1 := lambda k int :: PView(s, k)
+//@   loop 1 invariant b != nil && enc.PrefixKept(b) && PInv(s) && footprintStable(s) && (forall k int :: PView(s, k) == select(v1, k))
+//@   loop 2 invariant b != nil && enc.PrefixKept(b) && PInv(s) && footprintStable(s) && (forall k int :: PView(s, k) == select(v1, k)) && 0 <= $i2 && $i2 <= len(s.pages)
+//@   loop 3 invariant b != nil && enc.PrefixKept(b) && PInv(s) && footprintStable(s) && (forall k int :: PView(s, k) == select(v1, k)) && 0 <= $i2 && $i2 < len(s.pages) && len(page) == len(s.pages[$i2]) && len(page) > 0
